@@ -177,7 +177,7 @@ Proof. vm_compute. repeat split. Qed.
     exact text of the Go diagnostic (Judge/JCompilerValidate.v replays them on every tree the real
     parser produced and compares the text).  Go loops without a syntactic bound take fuel. *)
 From Coq Require Import String List.
-From FV Require Import Base.Res Model.ParserStrings Model.ParserAst Model.ParserFiles
+From FV Require Import Base.Res Model.ParserStrings Model.ParserAst Model.ParserFsys
      Model.CompilerValidate Proofs.CompilerValidateProofs.
 
 (** c11_validate_total: on EVERY parse tree whose names are what the grammar can produce (service,
@@ -364,8 +364,9 @@ Proof. exact validation_nonvacuous. Qed.
 
 (** ** Scope prefixes (findings triage; was known finding C11-K12, repaired)
 
-    These theorems are about [validate] of Model/ParserFiles.v, the transcription of
-    Frugal.validate that the C10 judge replays against ParseFrugal on whole programs. *)
+    These theorems are about [validate] of Model/ParserFiles.v, what the C10 judge replays against
+    ParseFrugal on whole programs: it is [cvalidate] above with the diagnostic text forgotten
+    (c10_validate_agrees_with_c11), so they are corollaries of the theorems of this file. *)
 From FV Require Import Model.ParserStrings Model.ParserAst Model.Parser Model.ParserFiles Proofs.ParserProofs
      Proofs.DfxValidateProofs.
 
@@ -376,14 +377,14 @@ Theorem c11_validated_prefix_variables_distinct : forall f incs,
   ParserFiles.validate f incs = VOk ->
   forall s, In s (fr_scopes f) ->
     NoDup (p_vars (sc_prefix s))
-    /\ forall o, In o (sc_ops s) -> valid_type f incs (o_type o) = Some true.
+    /\ forall o, In o (sc_ops s) -> valid_ty (reduce f incs) (o_type o) = true.
 Proof. exact validate_prefix_variables_distinct. Qed.
 Print Assumptions c11_validated_prefix_variables_distinct.
 
 (** a scope whose prefix repeats a variable is an error of validation: not accepted, not a panic *)
-Theorem c11_dup_prefix_variable_is_error : forall f incs s,
-  has_dup (p_vars (sc_prefix s)) = true -> validate_scope f incs s = VErr.
-Proof. exact validate_scope_dup_rejected. Qed.
+Theorem c11_dup_prefix_variable_is_error : forall rf s,
+  has_dup (p_vars (sc_prefix s)) = true -> exists m, check_scope rf s = RErr m.
+Proof. exact check_scope_dup_rejected. Qed.
 Print Assumptions c11_dup_prefix_variable_is_error.
 
 (** on program text through the PEG parser: "scope Sc prefix a.{zone}.{zone} { op: E }" is rejected
@@ -394,12 +395,12 @@ Theorem c11_dup_prefix_variable_rejected :
 Proof. exact dup_prefix_variable_rejected. Qed.
 Print Assumptions c11_dup_prefix_variable_rejected.
 
-(** the validation of scopes as it was before the repair ([validate_scopes_pinned]) accepted the
+(** the validation of scopes as it was before the repair ([check_scope_pinned]) accepted the
     scopes of that program, whose prefix variables are [zone; zone] *)
 Theorem c11_dup_prefix_variable_accepted_pinned_refuted :
-  exists f, parse_idl dfx_dup_prefix_text = POk f
+  exists f, parse_idl dfx_dup_prefix_text = Parser.POk f
     /\ map (fun s => p_vars (sc_prefix s)) (fr_scopes f) = [[dfx_zone; dfx_zone]]
-    /\ validate_scopes_pinned f [] = VOk
-    /\ validate_scopes f [] = VErr.
+    /\ rall (check_scope_pinned (reduce f [])) (fr_scopes f) = ROk
+    /\ exists m, rall (check_scope (reduce f [])) (fr_scopes f) = RErr m.
 Proof. exact dup_prefix_variable_accepted_pinned. Qed.
 Print Assumptions c11_dup_prefix_variable_accepted_pinned_refuted.
